@@ -10,6 +10,7 @@ import (
 	"go/constant"
 	"go/token"
 	"go/types"
+	"sort"
 	"strings"
 
 	"golang.org/x/tools/go/ssa"
@@ -48,68 +49,176 @@ func isKindLoad(v ssa.Value) bool {
 	return false
 }
 
+// mergerGuardExemptions: the ways a same-named definition leaves mergeTypes without having its
+// kind compared, each with what is known about it.
+var mergerGuardExemptions = map[string]string{
+	"name is Node": "the `Node` interface of a later service is dropped before any comparison (every service declares the same relay interface). " +
+		"Its kind is NOT compared: `interface Node` in one service and `type Node {…}` in another merge silently in one order and fail in LoadSchema in the other (fourth audit, M-C2: a recorded weakness of pebbles, not covered by C05's kind-collision claim)",
+}
+
+// mergerRecordedDefects: obligations that fail on the pinned tree and are reported as known
+// findings until pebbles is repaired (fourth audit). The key is the construct of the obligation.
+var mergerRecordedDefects = map[string]string{
+	"members compared between the two definitions (PossibleTypes)": "M-C1: the interface branch of mergeTypes builds both name lists from the same schema (`as.PossibleTypes[va.Name]` and `as.PossibleTypes[nvb.Name]`, one name): the comparison can never fire, `interface Shape` with {Circle} in one service and {Square, Triangle} in the other merges silently",
+}
+
+func isNodePredicateCall(v ssa.Value) (*ssa.Call, bool) {
+	c, ok := v.(*ssa.Call)
+	if !ok || !strings.HasSuffix(calleeName(&c.Call), "merger.isImplementsNodeInterface") || len(c.Call.Args) != 1 {
+		return nil, false
+	}
+	return c, true
+}
+
+// kindOwner: the definition whose Kind v loads (nil if v is no such load).
+func kindOwner(v ssa.Value) ssa.Value {
+	v = unwrap(v)
+	switch x := v.(type) {
+	case *ssa.UnOp:
+		if x.Op == token.MUL {
+			if fa, ok := x.X.(*ssa.FieldAddr); ok && fieldOf(fa) != nil && fieldOf(fa).Name() == "Kind" && strings.HasSuffix(namedOf(fa.X.Type()), "ast.Definition") {
+				return copyOrigin(fa.X)
+			}
+		}
+	case *ssa.Field:
+		if f := fieldOfVal(x); f != nil && f.Name() == "Kind" {
+			return copyOrigin(x.X)
+		}
+	}
+	return nil
+}
+
+// isNodeNameTest: (atom, truth) says "this definition is the one called Node".
+func isNodeNameTest(atom ssa.Value, truth bool) bool {
+	isNodeConst := func(v ssa.Value) bool {
+		k, ok := v.(*ssa.Const)
+		return ok && k.Value != nil && k.Value.Kind() == constant.String && constant.StringVal(k.Value) == "Node"
+	}
+	// what is compared with "Node": the name of a definition, or the key of the ranged map
+	isName := func(v ssa.Value) bool {
+		switch x := unwrap(v).(type) {
+		case *ssa.UnOp:
+			fa, ok := x.X.(*ssa.FieldAddr)
+			return ok && x.Op == token.MUL && fieldOf(fa) != nil && fieldOf(fa).Name() == "Name"
+		case *ssa.Extract:
+			_, ok := x.Tuple.(*ssa.Next)
+			return ok && x.Index == 1
+		}
+		return false
+	}
+	switch c := atom.(type) {
+	case *ssa.BinOp:
+		if (c.Op == token.EQL || c.Op == token.NEQ) && ((isNodeConst(c.X) && isName(c.Y)) || (isNodeConst(c.Y) && isName(c.X))) {
+			return (c.Op == token.EQL) == truth
+		}
+	case *ssa.Call:
+		if strings.HasSuffix(calleeName(&c.Call), "common.IsNodeInterfaceName") {
+			return truth
+		}
+	}
+	return false
+}
+
 func ruleMergerGuards(r *Run) {
 	const rule = "R13o"
 	mt := r.Anchor(rule, "merger.mergeTypes")
 	if mt != nil {
 		name := fnName(mt)
-		// found side: comma-ok lookup in the result map
+		kindAtom := func(bo *ssa.BinOp) (ssa.Value, ssa.Value, bool) {
+			x, y := kindOwner(bo.X), kindOwner(bo.Y)
+			return x, y, x != nil && y != nil
+		}
+		nodeAtom := func(bo *ssa.BinOp) (ssa.Value, ssa.Value, bool) {
+			cx, ok1 := isNodePredicateCall(bo.X)
+			cy, ok2 := isNodePredicateCall(bo.Y)
+			if !ok1 || !ok2 {
+				return nil, nil, false
+			}
+			return cx.Call.Args[0], cy.Call.Args[0], true
+		}
+		isDefLookup := func(v ssa.Value) *ssa.Lookup {
+			lk, ok := v.(*ssa.Lookup)
+			if !ok {
+				return nil
+			}
+			if m, ok := lk.X.Type().Underlying().(*types.Map); ok && strings.HasSuffix(namedOf(m.Elem()), "ast.Definition") {
+				return lk
+			}
+			return nil
+		}
+		// found side: `va, found := result[k]` tested by found, or `va := result[k]` tested for nil
+		type edge struct {
+			from, to *ssa.BasicBlock
+		}
 		var foundSide map[*ssa.BasicBlock]bool
-		var kindEq, nodeEq map[*ssa.BasicBlock]bool
-		var kindIf, nodeIf *ssa.If
+		var foundEdges []edge
+		var kindG, nodeG *agreeGuard
+		selfKind := false
 		for _, ins := range allInstrs(mt) {
 			iff, ok := ins.(*ssa.If)
 			if !ok {
 				continue
 			}
-			if ex, ok := iff.Cond.(*ssa.Extract); ok && ex.Index == 1 {
-				if lk, ok := ex.Tuple.(*ssa.Lookup); ok && lk.CommaOk {
-					foundSide = union(foundSide, dominatedBy(iff.Block().Succs[0]))
+			for k, s := range iff.Block().Succs {
+				atom, truth, feasible := branchFact(iff.Block(), nil, k, nil)
+				if !feasible || atom == nil {
+					continue
 				}
-			}
-			if un, ok := iff.Cond.(*ssa.UnOp); ok && un.Op == token.NOT {
-				if ex, ok := un.X.(*ssa.Extract); ok && ex.Index == 1 {
-					if lk, ok := ex.Tuple.(*ssa.Lookup); ok && lk.CommaOk {
-						foundSide = union(foundSide, dominatedBy(iff.Block().Succs[1]))
+				found := false
+				if ex, ok := atom.(*ssa.Extract); ok && ex.Index == 1 && truth {
+					if lk, ok := ex.Tuple.(*ssa.Lookup); ok && lk.CommaOk && isDefLookup(lk) != nil {
+						found = true
 					}
 				}
+				if nonNil, ok := resolveNilTest(atom, func(v ssa.Value) bool {
+					if ex, ok := v.(*ssa.Extract); ok && ex.Index == 0 {
+						v = ex.Tuple
+					}
+					return isDefLookup(v) != nil
+				}, 0); ok && nonNil == truth {
+					found = true
+				}
+				if found {
+					foundSide = union(foundSide, dominatedBy(s))
+					foundEdges = append(foundEdges, edge{iff.Block(), s})
+				}
 			}
-			bo, ok := iff.Cond.(*ssa.BinOp)
-			if !ok || (bo.Op != token.NEQ && bo.Op != token.EQL) {
-				continue
+			if g := resolveGuard(iff, kindAtom); g != nil {
+				if copyOrigin(g.x) == copyOrigin(g.y) {
+					selfKind = true
+					r.Bad(rule, name, "kind collision check", r.P.pos(iff.Cond.Pos()), "the kind comparison reads both kinds from the same definition (a copy compared with its own original): a name used for different kinds in two services is never noticed")
+				} else {
+					kindG = g
+					r.Check(returnsErrorOnAllPaths(mt, g.diff), rule, name, "kind collision is an error", r.P.pos(iff.Cond.Pos()),
+						"once the kinds of the incoming and the existing definition are compared, a difference returns an error on every path (the definition called Node never reaches the comparison, see the exemption)", "a name used for different kinds in two services does not always end in an error")
+				}
 			}
-			diff, same := iff.Block().Succs[0], iff.Block().Succs[1]
-			if bo.Op == token.EQL {
-				diff, same = same, diff
-			}
-			if isKindLoad(bo.X) && isKindLoad(bo.Y) {
-				kindIf = iff
-				kindEq = dominatedBy(same)
-				r.Check(returnsErrorOnAllPaths(mt, diff), rule, name, "kind collision is an error", r.P.pos(iff.Cond.Pos()),
-					"different kinds under one name return an error on every path", "a name used for different kinds in two services does not always end in an error")
-			}
-			isNodeCall := func(v ssa.Value) bool {
-				c, ok := v.(*ssa.Call)
-				return ok && strings.HasSuffix(calleeName(&c.Call), "merger.isImplementsNodeInterface")
-			}
-			if isNodeCall(bo.X) && isNodeCall(bo.Y) {
-				nodeIf = iff
-				nodeEq = dominatedBy(same)
-				r.Check(returnsErrorOnAllPaths(mt, diff), rule, name, "Node-interface disagreement is an error", r.P.pos(iff.Cond.Pos()),
-					"a type that implements Node in one service but not in the other returns an error on every path", "Node-interface disagreement does not always end in an error")
+			if g := resolveGuard(iff, nodeAtom); g != nil {
+				if copyOrigin(g.x) == copyOrigin(g.y) {
+					r.Bad(rule, name, "Node-interface agreement check", r.P.pos(iff.Cond.Pos()), "Node-interface membership of a definition is compared with itself")
+				} else {
+					nodeG = g
+					r.Check(returnsErrorOnAllPaths(mt, g.diff), rule, name, "Node-interface disagreement is an error", r.P.pos(iff.Cond.Pos()),
+						"a type that implements Node in one service but not in the other returns an error on every path", "Node-interface disagreement does not always end in an error")
+				}
 			}
 		}
-		if kindIf == nil {
+		if kindG == nil && !selfKind {
 			r.Bad(rule, name, "kind collision check", r.P.pos(mt.Pos()), "mergeTypes no longer compares the kinds of two same-named definitions")
 		}
-		if nodeIf == nil {
+		if nodeG == nil {
 			r.Bad(rule, name, "Node-interface agreement check", r.P.pos(mt.Pos()), "mergeTypes no longer compares Node-interface membership of two same-named definitions")
 		}
 		if foundSide == nil {
 			r.Bad(rule, name, "found/not-found split", r.P.pos(mt.Pos()), "lookup of the type in the accumulated result not recognised")
 		}
 		// every accept of an already-present name happens after the kind check
-		if kindIf != nil && foundSide != nil {
+		if kindG != nil && foundSide != nil {
+			kindEq := dominatedBy(kindG.same)
+			var nodeEq map[*ssa.BasicBlock]bool
+			if nodeG != nil {
+				nodeEq = dominatedBy(nodeG.same)
+			}
 			n := 0
 			for _, ins := range allInstrs(mt) {
 				if !foundSide[ins.Block()] {
@@ -132,41 +241,153 @@ func ruleMergerGuards(r *Run) {
 				r.Check(kindEq[ins.Block()], rule, name, what+" after kind check", r.P.pos(ins.Pos()),
 					"a definition whose name already exists is merged/overridden only after its kind was compared",
 					"a same-named definition is accepted (overridden or merged) on a path that has not passed the kind-collision check: e.g. `scalar X` silently replaces an object or enum X, depending on service order")
-				if strings.HasPrefix(what, "call") && nodeIf != nil {
+				if strings.HasPrefix(what, "call") && nodeG != nil {
 					r.Check(nodeEq[ins.Block()], rule, name, what+" after Node check", r.P.pos(ins.Pos()),
 						"merged only after Node-interface membership was compared", "objects are merged on a path that skipped the Node-interface agreement check")
 				}
 			}
-			r.AtLeast(rule, "accept sites for existing names", n, 3)
-		}
-		// union members compared
-		hasDiff := false
-		for _, ins := range allInstrs(mt) {
-			if c, ok := ins.(*ssa.Call); ok && strings.HasPrefix(calleeName(&c.Call), "github.com/samber/lo.Difference") {
-				hasDiff = true
+			r.AtLeast(rule, "accept sites for existing names", n, 1)
+			// … and leaving the incoming definition out (a `continue`) is an accept as well: the
+			// name keeps the kind the first service gave it. Every way from "the name exists" to
+			// the next name or to the successful return passes the kind comparison.
+			usedExempt := map[string]token.Pos{}
+			for _, e := range foundEdges {
+				loop := innermostLoop(e.from)
+				var header *ssa.BasicBlock
+				for b := range loop {
+					for _, p := range b.Preds {
+						if !loop[p] {
+							header = b
+						}
+					}
+				}
+				q := &pathQuery{
+					settleAt: func(b *ssa.BasicBlock) bool { return b == kindG.iff.Block() || kindEq[b] },
+					settleEdge: func(atom ssa.Value, truth bool) bool {
+						if isNodeNameTest(atom, truth) {
+							if ins, ok := atom.(ssa.Instruction); ok {
+								usedExempt["name is Node"] = ins.Pos()
+							}
+							return true
+						}
+						return false
+					},
+					badBlock: func(b *ssa.BasicBlock) bool { return header != nil && b == header },
+					badRet:   isNilErrReturn,
+				}
+				w := q.run(e.to, e.from)
+				site := r.P.pos(kindG.iff.Cond.Pos())
+				if w != nil {
+					site = r.P.pos(w.Pos())
+					if w.Pos() == token.NoPos {
+						site = r.P.pos(firstPos(w.Block()))
+						if firstPos(w.Block()) == token.NoPos {
+							site = r.P.pos(firstPos(e.to))
+						}
+					}
+				}
+				r.Check(w == nil, rule, name, "every way past an existing name compares the kinds", site,
+					"from the point where the name is found in the accumulated result, the next name or the successful return is reached only through the kind comparison (or the Node exemption)",
+					"an incoming definition whose name already exists can be passed over (skipped or kept as it is) without its kind having been compared with the existing one: which of two conflicting kinds survives then depends on the order of the services")
+			}
+			for k, pos := range usedExempt {
+				r.Tabled(rule, name, "skipped before the kind check: "+k, r.P.pos(pos), "mergerGuardExemptions", mergerGuardExemptions[k])
 			}
 		}
-		r.Check(hasDiff, rule, name, "union/interface member comparison", r.P.pos(mt.Pos()), "member sets are compared with lo.Difference", "union/interface member sets are no longer compared")
+		// union / interface members: each lo.Difference compares the member lists of the two
+		// definitions, and a non-empty difference on either side is an error
+		nDiff := 0
+		for _, ins := range allInstrs(mt) {
+			c, ok := ins.(*ssa.Call)
+			if !ok || !strings.HasPrefix(calleeName(&c.Call), "github.com/samber/lo.Difference") || len(c.Call.Args) != 2 {
+				continue
+			}
+			nDiff++
+			site := r.P.pos(c.Pos())
+			ra, rb := containerReads(c.Call.Args[0]), containerReads(c.Call.Args[1])
+			fields := map[string]bool{}
+			for k := range ra {
+				fields[strings.SplitN(k, " of ", 2)[0]] = true
+			}
+			for k := range rb {
+				fields[strings.SplitN(k, " of ", 2)[0]] = true
+			}
+			construct := "members compared between the two definitions (" + setNames(fields) + ")"
+			distinct := len(ra) > 0 && len(rb) > 0 && !sameStringSet(ra, rb)
+			if why, known := mergerRecordedDefects[construct]; known && !distinct {
+				r.add(&Oblig{Rule: rule, Func: name, Construct: construct, Site: site, Status: "known", Argument: "the two member lists handed to lo.Difference are read from the same place (" + setNames(ra) + "): the comparison cannot fire [recorded defect: " + why + "]"})
+			} else {
+				r.Check(distinct, rule, name, construct, site,
+					"the two lists handed to lo.Difference are read from different definitions ("+setNames(ra)+" / "+setNames(rb)+")",
+					"the two member lists handed to lo.Difference are read from the same place ("+setNames(ra)+"): a set is compared with itself and conflicting member sets are never noticed")
+			}
+			var parts [2]ssa.Value
+			for _, ref := range *c.Referrers() {
+				if ex, ok := ref.(*ssa.Extract); ok && ex.Index < 2 {
+					parts[ex.Index] = ex
+				}
+			}
+			loop := innermostLoop(c.Block())
+			var header *ssa.BasicBlock
+			for b := range loop {
+				for _, p := range b.Preds {
+					if !loop[p] {
+						header = b
+					}
+				}
+			}
+			for i, part := range parts {
+				side := [2]string{"missing in the incoming definition", "missing in the existing definition"}[i]
+				if part == nil {
+					r.Bad(rule, name, "member difference is an error ("+side+")", site, "one half of the member comparison (what is "+side+") is not looked at: member sets that differ in that direction are accepted")
+					continue
+				}
+				part := part
+				q := &pathQuery{
+					settleEdge: func(atom ssa.Value, truth bool) bool {
+						empty, ok := emptinessTest(atom, truth, part)
+						return ok && empty
+					},
+					badBlock: func(b *ssa.BasicBlock) bool { return header != nil && b == header },
+					badRet:   isNilErrReturn,
+				}
+				w := q.run(c.Block(), nil)
+				r.Check(w == nil, rule, name, "member difference is an error ("+side+")", site,
+					"after the comparison, the next name or a successful return is reached only where this half of the difference is empty",
+					"members that are "+side+" do not always end in an error (the two halves of lo.Difference are no longer both required to be empty): e.g. `union U = Dog | Cat` and `union U = Dog | Cat | Snake` merge silently")
+			}
+		}
+		r.Check(nDiff > 0, rule, name, "union/interface member comparison", r.P.pos(mt.Pos()), "member sets are compared with lo.Difference (each call is checked: operands and both halves of the result)", "union/interface member sets are no longer compared")
 	}
 	// both directions
 	mc := r.Anchor(rule, "merger.mergeCustomObjects")
-	if mc != nil && len(mc.Params) == 4 {
+	if mc != nil {
 		var calls []*ssa.Call
 		for _, ins := range allInstrs(mc) {
 			if c, ok := ins.(*ssa.Call); ok && strings.HasSuffix(calleeName(&c.Call), "merger.mergeCustomObjectFields") {
 				calls = append(calls, c)
 			}
 		}
+		// the parameters of mergeCustomObjects that are definitions, and the positions at which
+		// mergeCustomObjectFields takes definitions: forward = same order, reverse = swapped
+		isDef := func(v ssa.Value) bool { return strings.HasSuffix(namedOf(v.Type()), "ast.Definition") }
+		var defParams []ssa.Value
+		for _, p := range mc.Params {
+			if isDef(p) {
+				defParams = append(defParams, p)
+			}
+		}
 		fwd, rev := false, false
 		for _, c := range calls {
-			a := c.Call.Args
-			if len(a) != 4 {
-				continue
+			var defArgs []ssa.Value
+			for _, a := range c.Call.Args {
+				if isDef(a) {
+					defArgs = append(defArgs, a)
+				}
 			}
 			dominatesSuccess := true
 			for _, ret := range returnsOf(mc) {
-				vals := retVals(ret)
-				if isNilConst(unwrap(vals[len(vals)-1])) && !instrDominates(c, ret) {
+				if isNilErrReturn(ret) && !instrDominates(c, ret) {
 					dominatesSuccess = false
 				}
 			}
@@ -174,10 +395,34 @@ func ruleMergerGuards(r *Run) {
 				r.Bad(rule, fnName(mc), "overlap check on every accept", r.P.pos(c.Pos()), "a field-overlap check is skipped on some path that accepts the merge: shared types that are neither identical nor disjoint can be accepted depending on which service comes first")
 				continue
 			}
-			if a[0] == ssa.Value(mc.Params[0]) && a[1] == ssa.Value(mc.Params[1]) && a[2] == ssa.Value(mc.Params[2]) && a[3] == ssa.Value(mc.Params[3]) {
+			if len(defArgs) != 2 || len(defParams) != 2 {
+				continue
+			}
+			// the type maps, where still passed, travel with their definition
+			mapsFollow := func(swapped bool) bool {
+				var mapParams, mapArgs []ssa.Value
+				for _, p := range mc.Params {
+					if !isDef(p) {
+						mapParams = append(mapParams, p)
+					}
+				}
+				for _, a := range c.Call.Args {
+					if !isDef(a) {
+						mapArgs = append(mapArgs, a)
+					}
+				}
+				if len(mapParams) != 2 || len(mapArgs) != 2 {
+					return len(mapArgs) == 0
+				}
+				if swapped {
+					return mapArgs[0] == mapParams[1] && mapArgs[1] == mapParams[0]
+				}
+				return mapArgs[0] == mapParams[0] && mapArgs[1] == mapParams[1]
+			}
+			if defArgs[0] == defParams[0] && defArgs[1] == defParams[1] && mapsFollow(false) {
 				fwd = true
 			}
-			if a[0] == ssa.Value(mc.Params[1]) && a[1] == ssa.Value(mc.Params[0]) && a[2] == ssa.Value(mc.Params[3]) && a[3] == ssa.Value(mc.Params[2]) {
+			if defArgs[0] == defParams[1] && defArgs[1] == defParams[0] && mapsFollow(true) {
 				rev = true
 			}
 		}
@@ -185,68 +430,95 @@ func ruleMergerGuards(r *Run) {
 			"mergeCustomObjectFields(a→b) and (b→a) both dominate every successful return",
 			"the overlap classification of a shared type is not performed unconditionally in both directions before the merge is accepted: acceptance then depends on the order of the services")
 	}
-	// Node types never share a non-id field: the test precedes every accept
+	// Node types never share a non-id field: no successful return of mergeCustomObjectFields is
+	// reached while `implements Node` and `some field overlaps` both hold
 	mf := r.Anchor(rule, "merger.mergeCustomObjectFields")
 	if mf != nil {
 		var nodeCall *ssa.Call
 		for _, ins := range allInstrs(mf) {
-			if c, ok := ins.(*ssa.Call); ok && strings.HasSuffix(calleeName(&c.Call), "merger.isImplementsNodeInterface") {
+			if c, ok := isNodePredicateCall(valueOfInstr(ins)); ok {
 				nodeCall = c
 			}
 		}
 		if nodeCall == nil {
 			r.Bad(rule, fnName(mf), "Node overlap test", r.P.pos(mf.Pos()), "mergeCustomObjectFields no longer asks whether the shared type implements Node")
 		} else {
-			okDom := true
-			var badRet *ssa.Return
-			for _, ret := range returnsOf(mf) {
-				vals := retVals(ret)
-				if isNilConst(unwrap(vals[len(vals)-1])) && !instrDominates(nodeCall, ret) {
-					okDom = false
-					badRet = ret
+			// where a field of the other definition was found among the fields collected so far
+			overlapSide := map[*ssa.BasicBlock]bool{}
+			for _, ins := range allInstrs(mf) {
+				iff, ok := ins.(*ssa.If)
+				if !ok {
+					continue
 				}
+				nonNil, known := resolveNilTest(iff.Cond, func(v ssa.Value) bool {
+					c, isCall := v.(*ssa.Call)
+					return isCall && strings.HasSuffix(calleeName(&c.Call), "ast.FieldList).ForName")
+				}, 0)
+				if !known {
+					continue
+				}
+				side := iff.Block().Succs[0]
+				if !nonNil {
+					side = iff.Block().Succs[1]
+				}
+				overlapSide = union(overlapSide, dominatedBy(side))
 			}
-			site := r.P.pos(nodeCall.Pos())
-			if badRet != nil {
-				site = r.P.pos(retPos(badRet))
-			}
-			r.Check(okDom, rule, fnName(mf), "Node overlap test precedes every accept", site,
-				"every successful return is reached only after the `implements Node && overlapping` test",
-				"a shared type can be accepted (e.g. as a complete copy) on a path that skipped the `implements Node && some field overlaps` test: a Node type whose non-id field is declared by two services is merged silently and the field is routed to whichever service comes last")
-			// and the test's positive side is an error
-			errSide := false
-			for _, ref := range *nodeCall.Referrers() {
-				if iff, ok := ref.(*ssa.If); ok {
-					for _, b := range mf.Blocks {
-						if len(iff.Block().Succs[0].Preds) == 1 && (b == iff.Block().Succs[0] || iff.Block().Succs[0].Dominates(b)) {
-							if ret, ok := b.Instrs[len(b.Instrs)-1].(*ssa.Return); ok {
-								vals := retVals(ret)
-								if !isNilConst(unwrap(vals[len(vals)-1])) {
-									errSide = true
-								}
-							}
+			sawSome := false
+			q := &pathQuery{
+				settleEdge: func(atom ssa.Value, truth bool) bool {
+					if _, ok := isNodePredicateCall(atom); ok && !truth {
+						return true
+					}
+					// "some field overlaps": an or-accumulated flag, or the list of the
+					// overlapping fields not being empty
+					if isExistsAccumulator(atom) {
+						sawSome = true
+						return !truth
+					}
+					if e := lenOperand(atom); e != nil && isListOf(e, func(b *ssa.BasicBlock) bool { return overlapSide[b] }) {
+						if empty, ok := emptinessTest(atom, truth, e); ok {
+							sawSome = true
+							return empty
 						}
 					}
-				}
+					return false
+				},
+				badRet: isNilErrReturn,
 			}
-			r.Check(errSide, rule, fnName(mf), "Node overlap is an error", site, "an error is returned under `implements Node && overlapping`", "the Node-overlap test no longer leads to an error")
+			w := q.run(mf.Blocks[0], nil)
+			site := r.P.pos(nodeCall.Pos())
+			if w != nil && w.Pos() != token.NoPos {
+				site = r.P.pos(w.Pos())
+			} else if ret, ok := w.(*ssa.Return); ok {
+				site = r.P.pos(retPos(ret))
+			}
+			r.Check(w == nil && sawSome, rule, fnName(mf), "Node overlap test precedes every accept", site,
+				"every successful return is reached only where the type does not implement Node or no field overlaps: `implements Node && some field overlaps` always ends in an error, whatever the order or naming of the two conjuncts",
+				"a shared type can be accepted (e.g. as a complete copy) although it implements Node and some of its fields overlap (the test is skipped, or narrowed by a further condition): a Node type whose non-id field is declared by two services is merged silently and the field is routed to whichever service comes last")
 		}
 	}
 	// root overlap
 	mr := r.Anchor(rule, "merger.mergeRootObjects")
 	if mr != nil {
 		ok := false
+		isForName := func(v ssa.Value) bool {
+			c, isCall := v.(*ssa.Call)
+			return isCall && strings.HasSuffix(calleeName(&c.Call), "ast.FieldList).ForName")
+		}
+		// through a helper predicate (`hasField(fields, name)`): the test is on the ForName call
+		// inside it
 		for _, ins := range allInstrs(mr) {
 			iff, isIf := ins.(*ssa.If)
 			if !isIf {
 				continue
 			}
-			side := nilTestSide(iff, func(v ssa.Value) bool {
-				c, isCall := v.(*ssa.Call)
-				return isCall && strings.HasSuffix(calleeName(&c.Call), "ast.FieldList).ForName")
-			})
-			if side == nil {
+			nonNil, known := resolveNilTest(iff.Cond, isForName, 0)
+			if !known {
 				continue
+			}
+			side := iff.Block().Succs[0]
+			if !nonNil {
+				side = iff.Block().Succs[1]
 			}
 			// side = non-nil (overlap) → error
 			if returnsErrorOnAllPaths(mr, side) {
@@ -256,6 +528,11 @@ func ruleMergerGuards(r *Run) {
 		r.Check(ok, rule, fnName(mr), "duplicate root field is an error", r.P.pos(mr.Pos()),
 			"a root field that already exists returns an error", "the same root field declared by two services no longer ends in an error on every path")
 	}
+}
+
+func valueOfInstr(ins ssa.Instruction) ssa.Value {
+	v, _ := ins.(ssa.Value)
+	return v
 }
 
 // ---- R13c / R13d --------------------------------------------------------------------------
@@ -337,79 +614,266 @@ func ruleRoutingPairs(r *Run) {
 	mg := r.Anchor(rule, "merger.(ExtendMergerFunc).Merge")
 	n := 0
 	if mg != nil {
-		for _, ins := range allInstrs(mg) {
-			c, ok := ins.(*ssa.Call)
-			if !ok || !strings.HasSuffix(calleeName(&c.Call), "merger.TypeURLMap).SetFromSchema") || len(c.Call.Args) != 3 {
-				continue
-			}
-			n++
+		// a recording site: SetFromSchema(x.Schema.Types, x.URL), or a helper that is handed the
+		// input x and does that with its parameter
+		type recSite struct {
+			call  *ssa.Call
+			input ssa.Value
+		}
+		var sites []recSite
+		checkPair := func(in *ssa.Function, c *ssa.Call) ssa.Value {
 			s := mergeInputOf(c.Call.Args[1], false, 0)
 			u := mergeInputOf(c.Call.Args[2], true, 0)
-			r.Check(s != nil && u != nil && sameInput(s, u), rule, fnName(mg), "SetFromSchema(schema, url) of one input", r.P.pos(c.Pos()),
+			good := s != nil && u != nil && sameInput(s, u)
+			r.Check(good, rule, fnName(in), "SetFromSchema(schema, url) of one input", r.P.pos(c.Pos()),
 				"the type map and the URL passed to SetFromSchema are fields of the same MergeInput",
 				"a schema's fields are recorded in the routing table under the URL of a different input: every field of that service is routed to the wrong service")
+			if !good {
+				return nil
+			}
+			return s
 		}
-	}
-	r.AtLeast(rule, "SetFromSchema calls in Merge", n, 2)
-	// NewGateway pairs schemas[i] with urls[i]: the introspector must hand back one schema per
-	// URL it was given, i.e. fan out over lo.Range(len(urls)) of the untouched parameter
-	if irs := r.Anchor(rule, "introspection.(*ParallelRemoteSchemaIntrospector).IntrospectRemoteSchemas"); irs != nil {
-		call, _, _ := r.amrSite(irs)
-		ok := false
-		if call != nil && len(irs.Params) == 2 {
-			if rc, isCall := unwrap(call.Call.Args[0]).(*ssa.Call); isCall && strings.HasSuffix(calleeName(&rc.Call), "lo.Range") && len(rc.Call.Args) == 1 {
-				if lc, isLen := rc.Call.Args[0].(*ssa.Call); isLen {
-					if b, isB := lc.Call.Value.(*ssa.Builtin); isB && b.Name() == "len" && isUntouchedParam(irs, lc.Call.Args[0], irs.Params[1]) {
-						ok = true
+		isSFS := func(c *ssa.Call) bool {
+			return strings.HasSuffix(calleeName(&c.Call), "merger.TypeURLMap).SetFromSchema") && len(c.Call.Args) == 3
+		}
+		for _, ins := range allInstrs(mg) {
+			c, ok := ins.(*ssa.Call)
+			if !ok {
+				continue
+			}
+			if isSFS(c) {
+				n++
+				if in := checkPair(mg, c); in != nil {
+					sites = append(sites, recSite{c, in})
+				}
+				continue
+			}
+			sc := c.Call.StaticCallee()
+			if sc == nil || !inModule(sc) || sc.Blocks == nil || topFn(sc).Pkg != topFn(mg).Pkg {
+				continue
+			}
+			for _, i2 := range allInstrs(sc) {
+				c2, ok := i2.(*ssa.Call)
+				if !ok || !isSFS(c2) {
+					continue
+				}
+				n++
+				in := checkPair(sc, c2)
+				if in == nil {
+					continue
+				}
+				for k, p := range sc.Params {
+					if ssa.Value(p) == in && k < len(c.Call.Args) {
+						sites = append(sites, recSite{c, c.Call.Args[k]})
 					}
 				}
 			}
 		}
+		// which inputs are recorded: inputs[c] for a constant c, or every element from c on when
+		// the site sits in a range over inputs[c:]
+		var inputsParam ssa.Value
+		for _, p := range mg.Params {
+			if sl, ok := p.Type().Underlying().(*types.Slice); ok && strings.HasSuffix(namedOf(sl.Elem()), "merger.MergeInput") {
+				inputsParam = p
+			}
+		}
+		consts := map[int64]bool{}
+		from := int64(-1)
+		for _, st := range sites {
+			ld, ok := unwrap(st.input).(*ssa.UnOp)
+			if !ok || ld.Op != token.MUL {
+				continue
+			}
+			ia, ok := ld.X.(*ssa.IndexAddr)
+			if !ok {
+				continue
+			}
+			base, low := ia.X, int64(0)
+			if sl, ok := base.(*ssa.Slice); ok && sl.High == nil && sl.Max == nil {
+				base = sl.X
+				if sl.Low != nil {
+					k, ok := sl.Low.(*ssa.Const)
+					if !ok || k.Value == nil {
+						continue
+					}
+					low, _ = constant.Int64Val(k.Value)
+				}
+			}
+			if inputsParam == nil || base != inputsParam {
+				continue
+			}
+			if k, ok := ia.Index.(*ssa.Const); ok && k.Value != nil {
+				c, _ := constant.Int64Val(k.Value)
+				// on every successful path
+				dom := true
+				for _, ret := range returnsOf(mg) {
+					if isNilErrReturn(ret) && !instrDominates(st.call, ret) {
+						dom = false
+					}
+				}
+				if dom {
+					consts[low+c] = true
+				}
+				continue
+			}
+			if !isRangeIndex(ia.Index) {
+				continue
+			}
+			loop := innermostLoop(st.call.Block())
+			var header *ssa.BasicBlock
+			for b := range loop {
+				for _, p := range b.Preds {
+					if !loop[p] {
+						header = b
+					}
+				}
+			}
+			if header == nil {
+				continue
+			}
+			call := st.call
+			q := &pathQuery{
+				settleIns: func(i ssa.Instruction) bool { return i == ssa.Instruction(call) },
+				settleAt:  func(b *ssa.BasicBlock) bool { return !loop[b] },
+				badBlock:  func(b *ssa.BasicBlock) bool { return b == header },
+			}
+			if q.run(header, nil) != nil {
+				continue
+			}
+			if from < 0 || low < from {
+				from = low
+			}
+		}
+		covered := from >= 0
+		for c := int64(0); covered && c < from; c++ {
+			if !consts[c] {
+				covered = false
+			}
+		}
+		r.Check(covered, rule, fnName(mg), "every input is recorded", r.P.pos(mg.Pos()),
+			"the recording sites cover inputs[0], inputs[1], … (constant indices plus a range over the rest), each on every path that goes on",
+			"not every input of Merge has its schema recorded in the routing table under its URL (an input is left out, or recorded only under a condition): the fields of that service have no route")
+	}
+	r.AtLeast(rule, "SetFromSchema calls in Merge", n, 1)
+	// NewGateway pairs schemas[i] with urls[i]: the introspector must hand back one schema per
+	// URL it was given, in the order it was given them
+	if irs := r.Anchor(rule, "introspection.(*ParallelRemoteSchemaIntrospector).IntrospectRemoteSchemas"); irs != nil {
+		call, mapF, _ := r.amrSite(irs)
 		site := r.P.pos(irs.Pos())
 		if call != nil {
 			site = r.P.pos(call.Pos())
 		}
-		r.Check(ok, rule, fnName(irs), "one schema per given URL", site,
-			"the fan-out runs over lo.Range(len(urls)) of the parameter as received (never reassigned, filtered or chunked)",
+		var fo *fanout
+		if call != nil && mapF != nil && len(irs.Params) == 2 {
+			fo = fanoutOver(irs, call, mapF, irs.Params[1])
+		}
+		r.Check(fo != nil, rule, fnName(irs), "one schema per given URL", site,
+			"the fan-out runs over every index of the URL list as received (lo.Range(len(urls)), or lo.Map(urls, …) that keeps URL and index together; the list is never reassigned, filtered or chunked)",
 			"the introspector no longer fans out over exactly the URL list it was given (the list is filtered, de-duplicated, re-sliced or the fan-out is split): NewGateway pairs schemas[i] with urls[i], so a shorter or re-ordered result records a service's fields under another service's URL")
+		if fo != nil {
+			// the URL that is introspected and the index that is carried belong together
+			fetches, carried := false, (*types.Var)(nil)
+			for _, ins := range allInstrs(mapF) {
+				switch x := ins.(type) {
+				case ssa.CallInstruction:
+					for _, a := range x.Common().Args {
+						if fo.isURL(unwrap(a)) {
+							fetches = true
+						}
+					}
+				case *ssa.Store:
+					if fa, ok := x.Addr.(*ssa.FieldAddr); ok && fo.isIndex(unwrap(x.Val)) {
+						carried = fieldOf(fa)
+					}
+				}
+			}
+			r.Check(fetches && carried != nil, rule, fnName(mapF), "URL i is introspected and index i is carried", r.P.pos(mapF.Pos()),
+				"the per-URL function introspects the URL of its own index and stores that index in its result",
+				"the per-URL function does not introspect the URL that belongs to the index it carries: after the sort, schema and URL of different services are paired")
+			if carried != nil {
+				r.checkIntrospectionOrder(rule, irs, call, carried)
+			}
+		}
 	}
 	ng := r.Anchor(rule, "pebbles.NewGateway")
 	if ng != nil {
-		// &MergeInput{Schema: schemas[i], URL: urls[i]} with one i
-		okPair := false
+		// &MergeInput{Schema: schemas[i], URL: given[i]} with one i, where `given` is the very list
+		// that was handed to the introspector
+		var given, schemas ssa.Value
 		for _, ins := range allInstrs(ng) {
-			al, ok := ins.(*ssa.Alloc)
-			if !ok || !strings.HasSuffix(namedOf(al.Type()), "merger.MergeInput") {
+			ci, ok := ins.(ssa.CallInstruction)
+			if !ok {
 				continue
 			}
-			var si, ui ssa.Value
-			for _, ref := range *al.Referrers() {
-				fa, ok := ref.(*ssa.FieldAddr)
-				if !ok || fieldOf(fa) == nil {
+			c := ci.Common()
+			isIntro := (c.IsInvoke() && c.Method.Name() == "IntrospectRemoteSchemas") || strings.HasSuffix(calleeName(c), ".IntrospectRemoteSchemas")
+			if !isIntro || len(c.Args) == 0 {
+				continue
+			}
+			given = sliceIdentity(c.Args[len(c.Args)-1])
+			if v, ok := ci.(ssa.Value); ok && v.Referrers() != nil {
+				for _, ref := range *v.Referrers() {
+					if ex, ok := ref.(*ssa.Extract); ok && ex.Index == 0 {
+						schemas = ex
+					}
+				}
+			}
+		}
+		okPair := false
+		why := "introspected schemas are not paired with their URLs by one common index"
+		if given == nil || schemas == nil {
+			why = "the call of the introspector (and the list of URLs it is given) was not found in NewGateway"
+		}
+		for _, f := range withClosures(ng) {
+			for _, ins := range allInstrs(f) {
+				al, ok := ins.(*ssa.Alloc)
+				if !ok || !strings.HasSuffix(namedOf(al.Type()), "merger.MergeInput") || given == nil || schemas == nil {
 					continue
 				}
-				for _, r2 := range *fa.Referrers() {
-					st, ok := r2.(*ssa.Store)
-					if !ok {
+				var si, ui, ubase ssa.Value
+				for _, ref := range *al.Referrers() {
+					fa, ok := ref.(*ssa.FieldAddr)
+					if !ok || fieldOf(fa) == nil {
 						continue
 					}
-					if ld, ok := st.Val.(*ssa.UnOp); ok && ld.Op == token.MUL {
-						if ia, ok := ld.X.(*ssa.IndexAddr); ok {
-							if fieldOf(fa).Name() == "Schema" {
-								si = ia.Index
-							} else if fieldOf(fa).Name() == "URL" {
-								ui = ia.Index
+					for _, r2 := range *fa.Referrers() {
+						st, ok := r2.(*ssa.Store)
+						if !ok {
+							continue
+						}
+						switch fieldOf(fa).Name() {
+						case "Schema":
+							if ld, ok := st.Val.(*ssa.UnOp); ok && ld.Op == token.MUL {
+								if ia, ok := ld.X.(*ssa.IndexAddr); ok && sliceIdentity(ia.X) == schemas {
+									si = ia.Index
+								}
+							}
+							// the element parameter of a lo.Map(schemas, func(s, i) …) callback
+							if len(f.Params) == 2 && st.Val == ssa.Value(f.Params[0]) {
+								if src := loMapSource(f); src != nil && sliceIdentity(src) == schemas {
+									si = f.Params[1]
+								}
+							}
+						case "URL":
+							if ld, ok := st.Val.(*ssa.UnOp); ok && ld.Op == token.MUL {
+								if ia, ok := ld.X.(*ssa.IndexAddr); ok {
+									ui, ubase = ia.Index, sliceIdentity(ia.X)
+								}
 							}
 						}
 					}
 				}
-			}
-			if si != nil && ui != nil && si == ui {
-				okPair = true
+				if si != nil && ui != nil && si == ui {
+					if ubase == given {
+						okPair = true
+					} else {
+						why = "schema i is paired with element i of a list that is not the list handed to the introspector (the introspector was given a copy, a sorted or a filtered list): schemas[i] is then not the schema of that URL, and every field of one service is routed to another"
+					}
+				}
 			}
 		}
 		r.Check(okPair, rule, fnName(ng), "MergeInput{schemas[i], urls[i]}", r.P.pos(ng.Pos()),
-			"schema i is paired with URL i under one index", "introspected schemas are not paired with their URLs by one common index")
+			"schema i is paired with element i of the very list the introspector was given", why)
 	}
 }
 
@@ -464,39 +928,104 @@ func ruleNodeFlag(r *Run) {
 		k, ok := c.Call.Args[1].(*ssa.Const)
 		return ok && k.Value != nil && k.Value.ExactString() == `"Node"` && dependsOnField(c.Call.Args[0], "Interfaces")
 	}
-	n := 0
-	for _, ins := range allInstrs(fn) {
-		iff, ok := ins.(*ssa.If)
-		if !ok || !isContainsNode(iff.Cond) {
-			continue
+	// the test may sit in SetFromSchema or in a helper it hands each definition to
+	region := r.P.CG.Reachable([]*ssa.Function{fn}, nil)
+	var holders []*ssa.Function
+	for g := range region {
+		if topFn(g).Pkg == topFn(fn).Pkg && g.Blocks != nil {
+			holders = append(holders, g)
 		}
-		n++
-		loop := innermostLoop(iff.Block())
-		var header *ssa.BasicBlock
-		for b := range loop {
-			for _, p := range b.Preds {
-				if !loop[p] {
-					header = b
+	}
+	sort.Slice(holders, func(i, j int) bool { return fnName(holders[i]) < fnName(holders[j]) })
+	isSet := func(i ssa.Instruction) bool {
+		ci, ok := i.(ssa.CallInstruction)
+		return ok && strings.HasSuffix(calleeName(ci.Common()), "merger.TypeURLMap).SetTypeIsImplementsNode")
+	}
+	// the filters under which a definition is not recorded at all (R13d.exempt classifies them)
+	notRecorded := func(atom ssa.Value, truth bool) bool {
+		switch c := atom.(type) {
+		case *ssa.BinOp:
+			if c.Op != token.EQL && c.Op != token.NEQ {
+				return false
+			}
+			for _, p := range [][2]ssa.Value{{c.X, c.Y}, {c.Y, c.X}} {
+				if k, ok := p[1].(*ssa.Const); ok && isKindLoad(p[0]) && k.Value != nil && k.Value.Kind() == constant.String && constant.StringVal(k.Value) == "OBJECT" {
+					return (c.Op == token.NEQ) == truth
 				}
 			}
+		case *ssa.Call:
+			return truth && strings.HasSuffix(calleeName(&c.Call), "common.IsBuiltinName")
 		}
-		isSet := func(i ssa.Instruction) bool {
-			ci, ok := i.(ssa.CallInstruction)
-			return ok && strings.HasSuffix(calleeName(ci.Common()), "merger.TypeURLMap).SetTypeIsImplementsNode")
+		return false
+	}
+	// covers: within one round of the loop around `at` (or one call of g, and then one round at
+	// each of its callers), every path on which the definition is recorded and implements Node
+	// executes an instruction accepted by settle
+	var covers func(g *ssa.Function, at *ssa.BasicBlock, settle func(ssa.Instruction) bool, depth int) bool
+	covers = func(g *ssa.Function, at *ssa.BasicBlock, settle func(ssa.Instruction) bool, depth int) bool {
+		q := &pathQuery{
+			settleIns: settle,
+			settleEdge: func(atom ssa.Value, truth bool) bool {
+				return (isContainsNode(atom) && !truth) || notRecorded(atom, truth)
+			},
 		}
-		okAll := true
-		if header != nil {
-			okAll, _ = mustPassUntil(iff.Block().Succs[0], header, isSet)
+		if loop := innermostLoop(at); loop != nil {
+			var header *ssa.BasicBlock
+			for b := range loop {
+				for _, p := range b.Preds {
+					if !loop[p] {
+						header = b
+					}
+				}
+			}
+			if header == nil {
+				return false
+			}
+			q.settleAt = func(b *ssa.BasicBlock) bool { return !loop[b] }
+			q.badBlock = func(b *ssa.BasicBlock) bool { return b == header }
+			return q.run(header, nil) == nil
 		}
-		r.Check(okAll, rule, fnName(fn), "Node flag set whenever the type implements Node", r.P.pos(iff.Cond.Pos()),
-			"every path from `implements Node` to the next type calls SetTypeIsImplementsNode",
-			"a type that implements Node can pass through SetFromSchema without being marked stitchable (the call is skipped under an extra condition): id-only Node types lose their flag and the planner reports `could not find location type`")
-		// and not set otherwise
-		for _, i2 := range allInstrs(fn) {
-			if isSet(i2) {
-				side := iff.Block().Succs[0]
-				r.Check(len(side.Preds) == 1 && (side == i2.Block() || side.Dominates(i2.Block())), rule, fnName(fn), "Node flag only for Node types", r.P.pos(i2.Pos()),
-					"SetTypeIsImplementsNode is reached only where lo.Contains(Interfaces, \"Node\") holds", "the Node flag can be set for a type that does not implement Node")
+		q.badRet = func(*ssa.Return) bool { return true }
+		if q.run(g.Blocks[0], nil) != nil {
+			return false
+		}
+		if g == fn {
+			return true
+		}
+		if depth >= 3 {
+			return false
+		}
+		callers := 0
+		for _, e := range r.P.CG.In[g] {
+			if e.Kind != "static" || !region[e.Caller] && e.Caller != fn {
+				continue
+			}
+			callers++
+			site := e.Site
+			if !covers(e.Caller, site.Block(), func(i ssa.Instruction) bool { return i == ssa.Instruction(site) }, depth+1) {
+				return false
+			}
+		}
+		return callers > 0
+	}
+	n := 0
+	for _, g := range holders {
+		for _, ins := range allInstrs(g) {
+			iff, ok := ins.(*ssa.If)
+			if !ok || !isContainsNode(iff.Cond) {
+				continue
+			}
+			n++
+			r.Check(covers(g, iff.Block(), isSet, 0), rule, fnName(g), "Node flag set whenever the type implements Node", r.P.pos(iff.Cond.Pos()),
+				"every path on which a recorded definition implements Node calls SetTypeIsImplementsNode before the next definition (conjuncts before or after the test, helpers and moved statements included)",
+				"a type that implements Node can pass through SetFromSchema without being marked stitchable (the call is skipped under an extra condition): id-only Node types lose their flag and the planner reports `could not find location type`")
+			// and not set otherwise
+			for _, i2 := range allInstrs(g) {
+				if isSet(i2) {
+					side := iff.Block().Succs[0]
+					r.Check(len(side.Preds) == 1 && (side == i2.Block() || side.Dominates(i2.Block())), rule, fnName(g), "Node flag only for Node types", r.P.pos(i2.Pos()),
+						"SetTypeIsImplementsNode is reached only where lo.Contains(Interfaces, \"Node\") holds", "the Node flag can be set for a type that does not implement Node")
+				}
 			}
 		}
 	}
